@@ -65,6 +65,12 @@ ASSUMPTIONS = [
     "uniform_filter1d's running sum passes through exact zeros before the content; the trailing "
     "rounding residue (~1e-14) is removed by the threshold (>= 1/255)",
     "numba is absent: engine='numba' runs the kernels interpreted",
+    "KNOWN FINDING {what: ecc-changes-under-transposition}: masks.cosmask weights the centre pixel with "
+    "cos(2*atan2(0,0)) = 1, so ecc differs between an integer image and its transpose; it is reported as "
+    "a property-violation with exactly this signature only when ecc is the ONLY differing column of a "
+    "transposed pair (preprocess=False); the model mirrors the code (centreCos = 1, exact law "
+    "refine_transpose_ecc) and its ecc is compared with the code's; a tree whose cosmask centre is 0 "
+    "(repo-fixes/C09-cosmask-centre.patch, not applied) is recognised (stat *_code_weight0) and accepted",
     "stage correspondences inherit the assumptions of C06 / C07 / C10 (exact percentile borderline, "
     "shift_thresh as the exact value of the float, kernel as 50-digit decimals)",
 ]
@@ -929,17 +935,19 @@ def run_stage_refine(ctx, res, inp):
                    and a["pos"].split(",")[::-1] == b["pos"].split(",")
                    and all(a[k] == b[k] for k in ("mass", "signal", "raw", "evals"))
                    and (a["rg2"].split(",")[::-1] == b["rg2"].split(","))
-                   and Fraction(ea[0]) == -Fraction(eb[0]) and Fraction(ea[1]) == Fraction(eb[1])
+                   and Fraction(eb[0]) == -Fraction(ea[0]) + 2 * int(ea[2])   # refine_transpose_ecc, centreCos = 1
+                   and Fraction(ea[1]) == Fraction(eb[1])
                    and ea[2] == eb[2])
             if not okm:
                 res.violation("correspondence-break", "model refinement of the transposed image is not the "
-                              "transposed refinement", model=dict(a=a, b=b), broken="refine_transpose",
+                              "transposed refinement", model=dict(a=a, b=b), broken="refine_transpose / refine_transpose_ecc",
                               signature=dict(sig, what="theorem-instance-transpose"))
             # the code on the transposed arrays against the code on the original ones
             r0, r1 = code0[f], code[f]
             k = 1 if iso else 2
             cols0 = list(r0[:2][::-1]) + [r0[2]] + list(r0[3:3 + k][::-1]) + list(r0[3 + k:])
             names = ["y", "x", "mass"] + ["size"] * k + ["ecc", "signal", "raw_mass"]
+            badn = []
             for name, u, v in zip(names, cols0, r1):
                 if name == "ecc":
                     m_, s_ = float(r0[2]), float(r0[3 + k + 1])
@@ -947,10 +955,46 @@ def run_stage_refine(ctx, res, inp):
                 else:
                     ok = close(u, v)
                 if not ok:
-                    w = "ecc-changes-under-transposition" if name == "ecc" else "refine-transpose-" + name
-                    res.violation("property-violation", "refine_com_arr on the transposed image: %s differs "
-                                  "(%r vs %r)" % (name, u, v), impl=dict(a=r0.tolist(), b=r1.tolist()),
-                                  signature=dict(what=w) if name == "ecc" else dict(sig, what=w))
+                    badn.append((name, u, v))
+            if [n for n, _, _ in badn] == ["ecc"]:
+                # narrow: ONLY ecc differs on the transposed pair, every other column agrees
+                res.violation("property-violation", "refine_com_arr on the transposed image: ecc differs "
+                              "(%r vs %r), every other column agrees" % badn[0][1:],
+                              impl=dict(a=r0.tolist(), b=r1.tolist()),
+                              signature=dict(what="ecc-changes-under-transposition"))
+            else:
+                for name, u, v in badn:
+                    if name != "ecc":
+                        res.violation("property-violation", "refine_com_arr on the transposed image: %s "
+                                      "differs (%r vs %r)" % (name, u, v), impl=dict(a=r0.tolist(), b=r1.tolist()),
+                                      signature=dict(sig, what="refine-transpose-" + name))
+            # model (centreCos = 1, the code as it is) against the code: ecc of both orientations
+            for rec, row in ((a, r0), (b, r1)):
+                st = ecc_model_vs_code(rec, float(row[3 + k]))
+                res.stat("stage_refine_ecc_" + st)
+                if st == "differs":
+                    res.violation("correspondence-break", "model ecc (centre weight 1) differs from refine_com_arr",
+                                  model=rec["ecc"], impl=float(row[3 + k]), broken="eccAt / centreCos",
+                                  signature=dict(sig, what="ecc-model"))
+
+
+def ecc_model_vs_code(rec, code_ecc):
+    """the model's ecc (sums e1, e2 with the code's centre weight 1, centre pixel cp) against the
+    code's number: 'agrees'; 'code_weight0' = the code has the centre weight 0 (a tree with
+    repo-fixes/C09-cosmask-centre.patch applied: the code then satisfies the property where the
+    model, which mirrors the unrepaired code, does not — accepted); 'differs' otherwise"""
+    e1, e2, cp = rec["ecc"].split(",") if isinstance(rec["ecc"], str) else rec["ecc"]
+    e1, e2, cp = Fraction(e1), Fraction(e2), int(cp)
+    mass = float(Fraction(rec["mass"]))
+    den = mass - cp + 1e-6
+    tol = 1e-9 * (mass / den + 1)
+    m1 = math.sqrt(float(e1 * e1 + e2 * e2)) / den
+    if abs(m1 - code_ecc) <= tol * (1 + abs(m1)):
+        return "agrees"
+    m0 = math.sqrt(float((e1 - cp) ** 2 + e2 * e2)) / den
+    if abs(m0 - code_ecc) <= tol * (1 + abs(m0)):
+        return "code_weight0"
+    return "differs"
 
 
 def run_stage_bandpass(ctx, res, inp):
@@ -1012,25 +1056,6 @@ def run_stage_bandpass(ctx, res, inp):
     res.nontrivial = any(v != 0 for v in outs[0])
 
 
-WITNESS = [[0, 0, 0, 0, 0], [0, 0, 0, 0, 0], [0, 0, 2, 1, 0], [0, 0, 0, 0, 0], [0, 0, 0, 0, 0]]
-
-
-def witness_oracle():
-    """the direct oracle on the witness of Props/C09 `ecc_transpose_witness`: centre pixel 2, right
-    neighbour 1, radius (1, 1); returns None if ecc is the same for the image and its transpose,
-    else the two values"""
-    import trackpy.refine.center_of_mass as com
-    img = np.array(WITNESS, dtype=np.uint8)
-    out = []
-    for a in (img, np.ascontiguousarray(img.T)):
-        r = np.asarray(com.refine_com_arr(a, a, (1, 1), np.array([[2.0, 2.0]]), max_iterations=1,
-                                          engine="python", characterize=True), dtype=float)
-        out.append(float(r[0][4]))
-    if abs(out[0] - out[1]) <= 1e-9 * (3.0 + abs(out[0])):
-        return None
-    return out[0], out[1]
-
-
 def run_witness(ctx, inp):
     """corpus entry: the Lean witness replayed on the real code (both engines)"""
     import trackpy.refine.center_of_mass as com
@@ -1045,14 +1070,19 @@ def run_witness(ctx, inp):
                                               max_iterations=1, engine=eng, characterize=True), dtype=float)
             vals.append(r[0])
         a, b = vals
+        badn = []
         for j, name in enumerate(["mass", "size", "ecc", "signal", "raw_mass"]):
             u, v = float(a[2 + j]), float(b[2 + j])
             if abs(u - v) > 1e-9 * (3.0 + abs(u)):
-                sig = dict(what="ecc-changes-under-transposition") if name == "ecc" else \
-                    dict(stream="witness", what="transpose-changes-" + name)
-                res.violation("property-violation", "witness (centre %d, right neighbour %d), engine %s: %s is "
-                              "%r, %r for the transposed image" % (img[2, 2], img[2, 3], eng, name, u, v),
-                              impl=dict(a=a.tolist(), b=b.tolist()), signature=sig)
+                badn.append((name, u, v))
+        for name, u, v in badn:
+            if name == "ecc" and len(badn) > 1:
+                continue
+            sig = dict(what="ecc-changes-under-transposition") if name == "ecc" else \
+                dict(stream="witness", what="transpose-changes-" + name)
+            res.violation("property-violation", "witness (centre %d, right neighbour %d), engine %s: %s is "
+                          "%r, %r for the transposed image" % (img[2, 2], img[2, 3], eng, name, u, v),
+                          impl=dict(a=a.tolist(), b=b.tolist()), signature=sig)
         if abs(a[0] - b[1]) > 1e-12 or abs(a[1] - b[0]) > 1e-12:
             res.violation("property-violation", "witness: coordinates not swapped", impl=dict(a=a.tolist(), b=b.tolist()),
                           signature=dict(stream="witness", what="transpose-position"))
@@ -1150,25 +1180,10 @@ def run_stage_locate(ctx, res, inp):
             if not ok:
                 bad.append(j)
         if bad == [3 + k]:
-            # only ecc differs: run the direct oracle (transposition) on this input first
-            outT = np.asarray(com.refine_com_arr(np.ascontiguousarray(raw.T), np.ascontiguousarray(image.T),
-                                                 tuple(radius[::-1]), np.asarray(coords, dtype=float)[:, ::-1],
-                                                 max_iterations=inp["max_iter"], engine="python",
-                                                 characterize=True), dtype=float)
-            u, v = float(row[3 + k]), float(outT[f][3 + k])
-            if abs(u - v) > 1e-9 * (float(Fraction(d["mass"])) / den + abs(u)):
-                res.violation("property-violation", "refine_com_arr on the transposed image: ecc differs "
-                              "(%r vs %r)" % (u, v), impl=dict(a=row.tolist(), b=outT[f].tolist()),
-                              signature=dict(what="ecc-changes-under-transposition"))
-                return
-            w = witness_oracle()
-            if w is not None:
-                res.violation("property-violation", "model (centre weight 0) and code differ in ecc only; on "
-                              "this input ecc happens to be transposition invariant, on the shrunk witness "
-                              "(3x3 plus-shaped neighbourhood: centre 2, right neighbour 1) it is not: "
-                              "ecc %r vs %r for the transposed image" % w, impl=dict(a=w[0], b=w[1]),
-                              signature=dict(what="ecc-changes-under-transposition"))
-                return
+            # only ecc differs from the model (centre weight 1 = the code as it is)
+            if ecc_model_vs_code(dict(ecc=d["ecc"], mass=d["mass"]), float(row[3 + k])) == "code_weight0":
+                res.stat("stage_locate_ecc_code_weight0")
+                continue
         if bad:
             res.stat("stage_locate_feature_differs")
             res.violation("correspondence-break", "locateModel feature %d differs from refine_com_arr in columns %s"
